@@ -1,15 +1,23 @@
 def _agree(rec):
-    # The greedy grouping is not re-implemented, so the "model result" of the end-to-end cases is the judge's reading
-    # of the implementation's transactions (count + per-transaction figures): it must describe the same outcome
-    # (ok + same number of transactions / err / panic).  Calculator-tie cases (kind `pp`) compare every figure exactly.
-    i, m = rec["impl"].split(" "), rec["model"].split(" ")
-    if rec["case"].startswith("pp "):
-        return rec["impl"] == rec["model"]
+    # The greedy grouping is not re-implemented, so the end-to-end part of the "model result" is the judge's reading of the
+    # implementation's transactions: it must describe the same outcome (ok + same number of transactions / err / panic).
+    # The calculator tie (hook H2) is compared exactly: the model replays the primitive operations the implementation
+    # applied to every proposal and must reproduce (a) every figure set_min_ada_for_tx computed (fee, estimated size,
+    # per output total / min ADA / size), (b) the witness-set size after every add_utxo, and (c) for the denoted
+    # transaction: real encoded size, fee, and per output coin : output size : value size -- which the harness measured
+    # on the real transaction bytes.
+    isec = rec["impl"].split(" | ")
+    msec = rec["model"].split(" | ")
+    i, m = isec[0].split(" "), msec[0].split(" ")
     if i[0] != m[0]:
         return False
-    if i[0] == "ok":
-        return len(i) > 1 and len(m) > 1 and i[1] == m[1]
-    return True
+    if i[0] != "ok":
+        return True
+    if not (len(i) > 1 and len(m) > 1 and i[1] == m[1]):
+        return False
+    if len(isec) != 4 or len(msec) != 3:
+        return False
+    return isec[1].strip() == msec[1].strip() and isec[3].strip() == msec[2].strip()
 
 
 def _nontrivial(rec):
